@@ -73,20 +73,24 @@ def _resolve_const(ctx, mod, cname, fn, e):
     return None
 
 
-def _seg_values(fn, segvar):
-    """{element position: value expr} for a segment built by append()/set() calls on `segvar` in fn (source order)"""
+def _seg_values(fn, segvar, segid=None):
+    """{element position: value expr} of the LAST segment built in fn by append()/set() calls (source order, top-level
+    statements).  The segment is named by the variable that holds it, or - `segid` - by the id of the literal it is
+    built from, whatever the variable is called."""
     out = {}
     n = 0
-    for s in ast.walk(fn):
-        pass
-    base = 0
+    cur = segvar
     for s in fn.body:
-        if isinstance(s, ast.Assign) and path_of(s.targets[0]) == segvar and isinstance(s.value, ast.Call) and s.value.args \
-                and A.is_str(s.value.args[0]):
+        if isinstance(s, ast.Assign) and isinstance(s.value, ast.Call) and s.value.args and A.is_str(s.value.args[0]) \
+                and A.call_target(s.value)[1] == 'Segment':
             text = s.value.args[0].value
-            n = len(text.split('*')) - 1
-            out = {}
-        elif isinstance(s, ast.Expr) and isinstance(s.value, ast.Call) and A.call_target(s.value)[0] == segvar:
+            if (segid is None and path_of(s.targets[0]) == segvar) or (segid is not None and text.split('*')[0] == segid):
+                cur = path_of(s.targets[0])
+                n = len(text.split('*')) - 1
+                out = {}
+            elif segid is not None and path_of(s.targets[0]) == cur:
+                cur = None       # the variable now holds another segment
+        elif isinstance(s, ast.Expr) and isinstance(s.value, ast.Call) and cur is not None and A.call_target(s.value)[0] == cur:
             c = s.value
             if A.call_target(c)[1] == 'append':
                 n += 1
@@ -103,7 +107,7 @@ def r2_version_keys(ctx):
     specs = [('error_997', 'error_997_visitor', '997.4010.xml', '00401'), ('error_999', 'error_999_visitor', '999.5010.xml', '00501')]
     for mod, cname, _, icvn in specs:
         f = ctx.func(mod, cname + '.visit_root_pre')
-        vals = _seg_values(f, 'gs_seg')
+        vals = _seg_values(f, 'gs_seg', 'GS')
         e = vals.get(8)
         key = '%s:%s.visit_root_pre GS08' % (mod, cname)
         if e is None:
@@ -131,8 +135,8 @@ def r2_version_keys(ctx):
         yield Ob('%s:%s.visit_root_pre GS01 is FA' % (mod, cname), ok, ctx.floc(f), '' if ok else 'GS01 is %s' % norm(e1))
     # 999: ST03 must be the same constant as GS08
     f = ctx.func('error_999', 'error_999_visitor.visit_gs_pre')
-    st = _seg_values(f, 'st_seg')
-    g8 = _resolve_const(ctx, 'error_999', 'error_999_visitor', f, _seg_values(ctx.func('error_999', 'error_999_visitor.visit_root_pre'), 'gs_seg').get(8))
+    st = _seg_values(f, 'st_seg', 'ST')
+    g8 = _resolve_const(ctx, 'error_999', 'error_999_visitor', f, _seg_values(ctx.func('error_999', 'error_999_visitor.visit_root_pre'), 'gs_seg', 'GS').get(8))
     s3 = _resolve_const(ctx, 'error_999', 'error_999_visitor', f, st.get(3)) if st.get(3) is not None else None
     ok = s3 is not None and s3 == g8
     yield Ob('error_999:error_999_visitor.visit_gs_pre ST03 = GS08 constant', ok, ctx.floc(f), '' if ok else 'ST03 %r vs GS08 %r' % (s3, g8))
@@ -343,7 +347,7 @@ def r6_997_counter(ctx):
     ok = bool(idx_w) and bool(idx_r) and idx_r[-1] > idx_w[0] and A.const(f.body[idx_r[-1]].value) == 1
     yield Ob('error_997:error_997_visitor.visit_gs_pre counter is 1 after ST is written', ok, ctx.floc(f), '' if ok else 'reset/ST order changed')
     f = ctx.func('error_997', 'error_997_visitor.visit_gs_post')
-    se = _seg_values(f, 'seg_data')
+    se = _seg_values(f, 'seg_data', 'SE')
     # the last built segment in the function is SE
     src = None
     e = se.get(1)
@@ -368,7 +372,7 @@ def r6_997_counter(ctx):
     yield Ob('error_997:error_997_visitor.visit_root_post IEA01 = gs_loop_count, IEA02 = ISA13 written', ok, ctx.floc(f), '' if ok else 'IEA construction changed')
     # ISA13 written = isa_control_num
     f = ctx.func('error_997', 'error_997_visitor.visit_root_pre')
-    vals = _seg_values(f, 'isa_seg')
+    vals = _seg_values(f, 'isa_seg', 'ISA')
     ok = 13 in vals and path_of(vals[13]) == 'self.isa_control_num'
     yield Ob('error_997:error_997_visitor.visit_root_pre ISA13 = isa_control_num', ok, ctx.floc(f), '' if ok else 'ISA13 is %s' % (norm(vals[13]) if 13 in vals else None))
     # a hand-kept counter is reset where the header that opens its scope is written, and nowhere else
